@@ -273,6 +273,16 @@ fn run_env_hist<const L: usize>(h: &EnvHeader, g: Option<&mut EGen>, fixed: &[EO
     }
 }
 
+fn run_env_crowd_hist<const L: usize>(h: &EnvHeader, w: &mut BufWriter<std::io::StdoutLock>) {
+    use bourse_verif_harness::envdrive::run_env_crowd;
+    if h.kind == "env" {
+        run_env_crowd(h, EnvW::<L>(Env::<L>::new(h.t0, h.ticks[0], h.step, h.trading), h.step), w);
+    } else {
+        let ticks: [u32; 2] = std::array::from_fn(|i| h.ticks[i % h.ticks.len()]);
+        run_env_crowd(h, MEnvW::<2, L>(MarketEnv::<2, L>::new(h.t0, ticks, h.step, h.trading), h.step), w);
+    }
+}
+
 fn run_env_long_hist<const L: usize>(h: &EnvHeader, g: &mut EGen, rounds: usize, w: &mut BufWriter<std::io::StdoutLock>) {
     use bourse_verif_harness::envdrive::run_env_long;
     if h.kind == "env" {
@@ -336,6 +346,11 @@ fn env_gen(m: &HashMap<String, String>) {
                    else if profile == "plain" && l != 10 && rng.gen::<f64>() < 0.1 { vec![1 << 30, (1u32 << 31) - 1, 1 << 29, 3 << 29] }
                    else if rng.gen::<f64>() < 0.5 { vec![1, 2, 3] } else { vec![1, 2, 5, 10] };
         let mut g = EGen { rng, profile: profile.clone(), ticks: tks, base, n_prices: np, vols, step, trading };
+        if profile == "crowd" {
+            let hc = EnvHeader { trading: true, ..h.clone() };
+            with_env_levels!(l, run_env_crowd_hist, &hc, &mut w);
+            continue;
+        }
         if profile == "long" {
             with_env_levels!(l, run_env_long_hist, &h, &mut g, rounds, &mut w);
             continue;
